@@ -102,7 +102,7 @@ var self string
 // budget for one job: generous multiple of the measured load time (which scales with machine load and
 // with the size of the imported standard library) plus a term linear in the number of SSA instructions.
 func jobBudget(loadMs int64, instrs int) time.Duration {
-	ms := 60*loadMs + int64(instrs)*20
+	ms := 25*loadMs + int64(instrs)*20
 	lo := int64(20000)
 	if lib.Thorough() {
 		lo = 40000
@@ -110,8 +110,12 @@ func jobBudget(loadMs int64, instrs int) time.Duration {
 	if ms < lo {
 		ms = lo
 	}
-	if ms > 600000 {
-		ms = 600000
+	hi := int64(240000)
+	if 6*loadMs > hi {
+		hi = 6 * loadMs // a machine so loaded that loading alone takes minutes
+	}
+	if ms > hi {
+		ms = hi
 	}
 	return time.Duration(ms) * time.Millisecond
 }
@@ -300,6 +304,7 @@ type sweepItem struct {
 	features []string
 	jobs     []string
 	fixed    time.Duration // fixed budget (corpus items) or 0
+	retried  bool
 	files    map[string]string
 	onDone   func(it *sweepItem, pr progResult)
 }
@@ -389,7 +394,9 @@ func main() {
 
 	// ---- 1. + 4. corpus and sweep
 	r := lib.Rand("c07-sweep")
-	base := lib.WorkDir(prop, "sweep")
+	// per-process scratch: several checks of this property (other VERIF_REPO trees) may run at the same time
+	base := lib.WorkDir(prop, fmt.Sprintf("sweep-%d", os.Getpid()))
+	keep := os.Getenv("VERIF_C07_KEEP") == "1"
 	var items []*sweepItem
 	var mu sync.Mutex
 
@@ -400,14 +407,20 @@ func main() {
 		n    int
 	}
 	failures := map[string]*failure{}
+	var retry []*sweepItem
 	abort := false
+	t0 := time.Now()
+	deadline := 1500 * time.Second // stay inside the check script's driver timeout and still report what was found
+	if lib.Thorough() {
+		deadline = 10000 * time.Second
+	}
 	knownKeys := map[string]bool{}
 	for _, kf := range lib.KnownFindings(prop) {
 		if kf.Status == "open" {
 			knownKeys[kf.Key] = true
 		}
 	}
-	flog, _ := os.Create(filepath.Join(lib.Root(), ".work", prop, "failures.txt"))
+	flog, _ := os.Create(filepath.Join(lib.Root(), ".work", prop, fmt.Sprintf("failures-%d.txt", os.Getpid())))
 	defer flog.Close()
 	addFailure := func(key, what string, it *sweepItem, o outcome) {
 		fmt.Fprintf(flog, "%s\t%s\t%s\t%s\n", key, it.id, o.job, o.msg)
@@ -417,8 +430,8 @@ func main() {
 			return
 		}
 		f.n++
-		if f.n >= 6 && !knownKeys[key] {
-			abort = true // the same new failure six times: stop sweeping, report
+		if f.n >= 3 && !knownKeys[key] {
+			abort = true // the same new failure three times: stop sweeping, report
 		}
 		if len(it.features) < len(f.it.features) {
 			f.it, f.o, f.what = it, o, what
@@ -427,6 +440,13 @@ func main() {
 	report := func(it *sweepItem, pr progResult) {
 		mu.Lock()
 		defer mu.Unlock()
+		if pr.loadErr != "" && !it.retried && (strings.Contains(pr.loadErr, "exceeded budget") || strings.Contains(pr.loadErr, "died while loading")) {
+			// environmental (overloaded machine, go list lock contention): once more, alone, after the sweep
+			it.retried = true
+			retry = append(retry, it)
+			rep.Count("load-retry")
+			return
+		}
 		if pr.loadErr != "" {
 			rep.Count("load-error")
 			rep.Fail("harness-load:"+it.id, "generated program does not load (generator defect, not a property violation): "+pr.loadErr, replayText(it, outcome{}), true)
@@ -474,6 +494,20 @@ func main() {
 				key = "C07g:calling-contexts-unbounded"
 				what += " — " + cl
 			}
+		}
+		if o.status == "timeout" && !knownKeys[key] {
+			// not one of the known divergences: confirm alone, with twice the budget, before calling it a failure
+			// (the machine may simply be overloaded)
+			mu.Unlock()
+			pr2 := runProgram(it.dir, []string{o.job}, 2*time.Duration(o.ms)*time.Millisecond)
+			mu.Lock()
+			for _, r := range pr2.outs {
+				if r.job == o.job && (r.status == "ok" || r.status == "error") {
+					rep.Count("timeout-not-confirmed-on-rerun")
+					return
+				}
+			}
+			what += " (confirmed by a second run with twice the budget)"
 		}
 		if strings.Contains(o.msg, "invalid memory address or nil pointer dereference") && strings.Contains(o.msg, "config.(*CodeIdentifier).equalOnNonEmptyFields") {
 			key = "F13:invalid-regex-nil-regexp"
@@ -606,6 +640,10 @@ func main() {
 			defer wg.Done()
 			for it := range ch {
 				mu.Lock()
+				if !abort && time.Since(t0) > deadline {
+					abort = true
+					rep.Notes = append(rep.Notes, "global deadline reached: remaining programs skipped")
+				}
 				stop := abort
 				mu.Unlock()
 				if stop {
@@ -624,6 +662,10 @@ func main() {
 	}
 	close(ch)
 	wg.Wait()
+	for _, it := range retry {
+		pr := runProgram(it.dir, it.jobs, it.fixed)
+		report(it, pr)
+	}
 	var fkeys []string
 	for k := range failures {
 		fkeys = append(fkeys, k)
@@ -639,6 +681,11 @@ func main() {
 		checkTraces(rep) // last: it calls GetAllCallingContexts in-process (see the watchdog there)
 	}
 	rep.Sample(map[string]any{"program": items[len(items)-1].id, "features": items[len(items)-1].features, "jobs": items[len(items)-1].jobs})
+	if !keep {
+		flog.Close()
+		os.RemoveAll(base)
+		os.Remove(filepath.Join(lib.Root(), ".work", prop, fmt.Sprintf("failures-%d.txt", os.Getpid())))
+	}
 	rep.Finish()
 }
 
